@@ -1,14 +1,24 @@
 open Model
 open Main_common
 
+(* "<fileName-hex> <maxAge> <entry>... [ |<seconds since the first pass> <entry>... ]..." : several cleanup passes of one appender, entries
+   written / touched / created before each; entry = <name-hex>:<kind>:<mtime offset from the first pass, seconds> *)
+let entry e =
+  match String.split_on_char ':' e with
+  | [n; k; off] -> { de_name = bytes_of_hex n; de_kind = n_of_int (let k = int_of_string k in if k = 3 then 1 else k) (* 3 = a directory with files inside: a directory *); de_mtime = z_of_int (int_of_string off) }
+  | _ -> failwith "bad entry"
+
 let run (line : string) : string =
   match fields line with
   | fn :: age :: ents ->
-      let dir = List.map (fun e ->
-        match String.split_on_char ':' e with
-        | [n; k; off] -> { de_name = bytes_of_hex n; de_kind = n_of_int (let k = int_of_string k in if k = 3 then 1 else k) (* 3 = a directory with files inside: a directory *); de_mtime = z_of_int (int_of_string off) }
-        | _ -> failwith "bad entry") ents in
-      let surv = clear_expired (bytes_of_hex fn) (z_of_int (int_of_string age)) Z0 dir in
+      let phases = ref [] and cur = ref [] and now = ref 0 in
+      List.iter (fun t ->
+        if String.length t > 0 && t.[0] = '|' then begin
+          phases := { ph_now = z_of_int !now; ph_set = List.rev !cur } :: !phases;
+          cur := []; now := int_of_string (String.sub t 1 (String.length t - 1))
+        end else cur := entry t :: !cur) ents;
+      phases := { ph_now = z_of_int !now; ph_set = List.rev !cur } :: !phases;
+      let surv = run_phases (bytes_of_hex fn) (z_of_int (int_of_string age)) [] (List.rev !phases) in
       String.concat " " (List.sort compare (List.map (fun e -> hex_of_bytes e.de_name) surv))
   | _ -> "?"
 
